@@ -67,17 +67,24 @@ Ts == {<<1, 2>>, QOne, <<9, 200>>}
 \* g(s) = 1 + a s along time ("t") or along the first position coordinate of x(t) = v t ("x")
 \* ("t2": g(s) = 1 + a s^2 - a history whose mean rate over an interval is NOT its rate at the midpoint, so that
 \*  one-point quadrature of the velocity gradient is not exact)
-GClasses == {[via |-> "const", a |-> QZ], [via |-> "t", a |-> <<1, 2>>], [via |-> "x", a |-> <<1, 4>>], [via |-> "t2", a |-> Q(3)]}
+\*  "hat": g(s) = 1 + a hat(s / P), the triangle wave with period P = T / 2: the rate factor is the SAME at the start,
+\*  the midpoint and the end of a step (and at the ends of each half), and different in between - a history that an
+\*  implementation sampling the velocity gradient at a few instants of an update would take for a steady one)
+GClasses == {[via |-> "const", a |-> QZ], [via |-> "t", a |-> <<1, 2>>], [via |-> "x", a |-> <<1, 4>>], [via |-> "t2", a |-> Q(3)],
+             [via |-> "hat", a |-> Q(2)]}
 XVel1 == <<7, 10>>             \* first component of the pathline velocity used for "x"
 EffA(g) == IF g.via = "x" THEN QMul(g.a, XVel1) ELSE g.a
 
 \* gint = int_0^s g as a term in the run-time parameter s (local time within the step)
-GInt(g) == IF g.via = "t2"
+GInt(g, T) == IF g.via = "hat"
+           THEN EAdd(EParam("s"), EMul(EQ(g.a), EHatInt(EParam("s"), EQ(QMul(QHalf, T)))))
+           ELSE IF g.via = "t2"
            THEN EAdd(EParam("s"), EMul(EQ(QDiv(g.a, Q(3))), EMul(EParam("s"), EMul(EParam("s"), EParam("s")))))
            ELSE EAdd(EParam("s"), EMul(EQ(QMul(QHalf, EffA(g))), EMul(EParam("s"), EParam("s"))))
 \* tau = int_0^T g
-TauG(T, g) == IF g.via = "t2" THEN QAdd(T, QMul(QDiv(g.a, Q(3)), QMul(T, QMul(T, T)))) ELSE Tau(T, EffA(g))
-Step(fam, M, sol, T, g) == [fam |-> fam, M |-> MatToSeq(M), T |-> T, g |-> g, trace |-> MTrace(M), sol |-> sol, gint |-> GInt(g)]
+TauG(T, g) == IF g.via = "hat" THEN QAdd(T, QMul(g.a, QMul(QHalf, T)))     \* whole periods: the mean of hat is 1/2
+              ELSE IF g.via = "t2" THEN QAdd(T, QMul(QDiv(g.a, Q(3)), QMul(T, QMul(T, T)))) ELSE Tau(T, EffA(g))
+Step(fam, M, sol, T, g) == [fam |-> fam, M |-> MatToSeq(M), T |-> T, g |-> g, trace |-> MTrace(M), sol |-> sol, gint |-> GInt(g, T)]
 
 \* (duration, g class) pairs: the short duration only with constant g (rationals stay small)
 TG == {tg \in Ts \X GClasses : tg[2].via = "const" \/ tg[1] # <<9, 200>>}
